@@ -2018,6 +2018,7 @@ func (f *formatter) NameName(n *ast.Name) {
 			separatorTkns[i] = f.newToken(token.T_NS_SEPARATOR, []byte("\\"))
 		}
 	}
+	n.SeparatorTkns = separatorTkns
 }
 
 func (f *formatter) NameFullyQualified(n *ast.NameFullyQualified) {
@@ -2031,6 +2032,7 @@ func (f *formatter) NameFullyQualified(n *ast.NameFullyQualified) {
 			separatorTkns[i] = f.newToken(token.T_NS_SEPARATOR, []byte("\\"))
 		}
 	}
+	n.SeparatorTkns = separatorTkns
 }
 
 func (f *formatter) NameRelative(n *ast.NameRelative) {
@@ -2045,6 +2047,7 @@ func (f *formatter) NameRelative(n *ast.NameRelative) {
 			separatorTkns[i] = f.newToken(token.T_NS_SEPARATOR, []byte("\\"))
 		}
 	}
+	n.SeparatorTkns = separatorTkns
 }
 
 func (f *formatter) NameNamePart(n *ast.NamePart) {
